@@ -1,0 +1,38 @@
+#ifndef NMTOOLS_ARRAY_INDEX_WRAP_AXIS_HPP
+#define NMTOOLS_ARRAY_INDEX_WRAP_AXIS_HPP
+
+#include "nmtools/meta.hpp"
+
+namespace nmtools::index
+{
+    /**
+     * @brief Count a negative axis from the end (numpy convention), keep everything else as it is.
+     *
+     * Unlike normalize_axis this does not validate the axis: None, unsigned and non-negative
+     * values (run-time or compile-time) are returned unchanged, so the type of the caller's
+     * result only changes for negative compile-time axes.
+     *
+     * @param axis  axis, may be None, an index or a constant index
+     * @param dim   number of dimension the axis refers to
+     */
+    template <typename axis_t, typename dim_t>
+    constexpr auto wrap_axis([[maybe_unused]] const axis_t& axis, [[maybe_unused]] const dim_t& dim)
+    {
+        if constexpr (meta::is_constant_index_v<axis_t>) {
+            constexpr auto a = (nm_index_t)meta::to_value_v<axis_t>;
+            if constexpr (a >= 0) {
+                return axis;
+            } else if constexpr (meta::is_constant_index_v<dim_t>) {
+                return meta::ct_v<(nm_index_t)(a + (nm_index_t)meta::to_value_v<dim_t>)>;
+            } else {
+                return (nm_index_t)(a + (nm_index_t)dim);
+            }
+        } else if constexpr (meta::is_index_v<axis_t> && meta::is_signed_v<axis_t>) {
+            return (axis < 0) ? (axis_t)(axis + (axis_t)dim) : axis;
+        } else {
+            return axis;
+        }
+    } // wrap_axis
+} // namespace nmtools::index
+
+#endif // NMTOOLS_ARRAY_INDEX_WRAP_AXIS_HPP
